@@ -34,6 +34,17 @@ pub fn run_case(case: &EnumCase, report: &mut Report, property: &str) -> Option<
     if let Some(limit) = case.limit {
         return run_limited(case, &ranges, &cfg, limit, report);
     }
+    // a range must not hold one combo under two keys: every deal with it would come out twice
+    for (i, r) in ranges.iter().enumerate() {
+        if let Some(d) = super::rangegen::duplicate_physical_combo(r) {
+            report.violate(
+                format!("{}:range-holds-combo-twice", case.signature()),
+                format!("{}: the range of player {} holds one combo under two keys ({}), so its deals are enumerated twice", case.label, i, d),
+                case.to_json(),
+            );
+            return None;
+        }
+    }
     let expected: Vec<Bucket> = expected_buckets(&cfg);
     let expected_total: u64 = expected.iter().map(|b| b.count).sum();
     let product = cfg.product();
@@ -85,6 +96,10 @@ pub fn run_case(case: &EnumCase, report: &mut Report, property: &str) -> Option<
                 case_json.clone(),
             );
         }
+    }
+    // the same enumeration through the iterator adaptors of std: nth/skip/step_by/take/last/count
+    if outcome.is_ok() && !overflow && expected_total > 0 && expected_total <= 40_000 {
+        adaptor_agreement(case, &cfg, &ranges, report);
     }
     if property == "C02" && st.deals_considered == 0 && product > 0 {
         report.inconclusive(format!("{}: the deal hook never fired", case.label));
@@ -153,6 +168,78 @@ fn run_limited(case: &EnumCase, ranges: &Vec<espada::hand_range::HandRange>, cfg
         stack_span: st.stack_span(),
         river_before_turn: monitor.river_before_turn,
     })
+}
+
+/// `nth`, `skip`, `step_by`, `take`, `last`, `count` must walk the very sequence a `next()` loop yields.
+fn adaptor_agreement(case: &EnumCase, cfg: &Config, ranges: &Vec<espada::hand_range::HandRange>, report: &mut Report) {
+    use crate::drive::trace_key;
+    let r = catch(|| {
+        let plain: Vec<_> = {
+            let mut it = drive::evaluator(cfg, ranges, None).into_iter();
+            let mut v = Vec::new();
+            while let Some(sd) = it.next() {
+                v.push(trace_key(&sd));
+            }
+            v
+        };
+        let n = plain.len();
+        let mut problems: Vec<String> = Vec::new();
+        let fresh = || drive::evaluator(cfg, ranges, None).into_iter();
+        for k in [0usize, 1, 2, n / 3, n / 2, n.saturating_sub(1), n, n + 3] {
+            let got = fresh().nth(k).map(|sd| trace_key(&sd));
+            if got != plain.get(k).cloned() {
+                problems.push(format!("nth({}) differs from the {}th showdown of a next() loop", k, k));
+            }
+            let got: Vec<_> = fresh().skip(k).take(5).map(|sd| trace_key(&sd)).collect();
+            let want: Vec<_> = plain.iter().skip(k).take(5).cloned().collect();
+            if got != want {
+                problems.push(format!("skip({}).take(5) differs from the next() loop", k));
+            }
+        }
+        for step in [2usize, 3, 7] {
+            let got: Vec<_> = fresh().step_by(step).map(|sd| trace_key(&sd)).collect();
+            let want: Vec<_> = plain.iter().step_by(step).cloned().collect();
+            if got != want {
+                problems.push(format!("step_by({}) yields {} showdowns, every {}th of the next() loop is {}", step, got.len(), step, want.len()));
+            }
+        }
+        if fresh().count() != n {
+            problems.push("count() differs from the number of showdowns of a next() loop".into());
+        }
+        if fresh().last().map(|sd| trace_key(&sd)) != plain.last().cloned() {
+            problems.push("last() differs from the last showdown of a next() loop".into());
+        }
+        // nth in the middle of an iteration, then carry on
+        let mut it = fresh();
+        let mut mixed = Vec::new();
+        for _ in 0..n.min(7) {
+            if let Some(sd) = it.next() {
+                mixed.push(trace_key(&sd));
+            }
+        }
+        if let Some(sd) = it.nth(4) {
+            mixed.push(trace_key(&sd));
+        }
+        for sd in it.by_ref().take(3) {
+            mixed.push(trace_key(&sd));
+        }
+        let mut want: Vec<_> = plain.iter().take(7).cloned().collect();
+        want.extend(plain.iter().skip(7 + 4).take(1).cloned());
+        want.extend(plain.iter().skip(7 + 5).take(3).cloned());
+        if mixed != want {
+            problems.push("next() x7, nth(4), take(3) differs from the same walk over a next() loop".into());
+        }
+        problems
+    });
+    report.count("adaptor_agreement_cases", 1);
+    match r {
+        Ok(problems) => {
+            if let Some(p) = problems.first() {
+                report.violate(format!("{}:adaptor", case.signature()), format!("{}: {} ({} disagreements; {})", case.label, p, problems.len(), cfg_short(cfg)), case.to_json());
+            }
+        }
+        Err(p) => report.violate(format!("{}:adaptor-panic", case.signature()), format!("{}: draining through iterator adaptors panicked: {}", case.label, p), case.to_json()),
+    }
 }
 
 pub fn cfg_short(cfg: &Config) -> String {
@@ -243,6 +330,11 @@ pub fn cases(tier: Tier, seed: u64) -> Vec<EnumCase> {
     v.push(EnumCase::parsed("readme", flop("Qs8d2h"), &["JJ+", "A2s+"]));
     v.push(EnumCase::parsed("bench", flop("Ks8d2h"), &["TT+", "A8s+"]));
     v.push(EnumCase::parsed("example-3way", flop("Qs8s2h"), &["JJ+,AsKs:0.5", "A2s+,KQo", "T9s,55"]));
+    // no players at all: one showdown per board
+    v.push(EnumCase::collect("no-players", flop("AsKd2h"), vec![]));
+    // combos written low card first, on top of rank-pair tokens (a range never holds a combo twice)
+    v.push(EnumCase::parsed("reversed-combos-1", flop("Qs8d2h"), &["AKo,KcAs:0.5", "QQ,QhQs:0.25"]));
+    v.push(EnumCase::parsed("reversed-combos-2", flop("9s4d3h"), &["77,7d7s:0.25,KAs", "2Ko,T9s,9sTs:0.5"]));
     // ranges overlapping the flop
     v.push(EnumCase::parsed("range-on-flop", flop("AsKd2h"), &["AA,KK,22,AKs,AKo", "A2s+,K2s+"]));
     v.push(EnumCase::collect("combo-on-flop", flop("2h3h9c"), vec![combos_of("2h3h,AsAh"), combos_of("KsKh,2h9c,QsQh")]));
